@@ -313,7 +313,7 @@ def run_funcfl(case, ctx, rng):
   for nm, tok, step, npts in (("dr", p["dr_tok"], dr, nr), ("drho", p["drho_tok"], drho, nrho)):
     end_decl, end_true = float(tok) * (npts - 1), float(step) * (npts - 1)
     ctx.count("funcfl_declared_grid_ends")
-    if abs(end_decl - end_true) > 1e-9 * max(1.0, abs(end_true)):
+    if not (abs(end_decl - end_true) <= 1e-9 * max(1.0, abs(end_true))):
       ctx.violation("funcfl_declared_grid", "header declares %s = %s: its grid ends at %.10g, the tabulated grid (step %.17g, %d points) at %.10g" % (
         nm, tok, end_decl, float(step), npts, end_true), what="funcfl_declared_grid", mech="header_step_six_decimals" if len(tok.split(".")[-1]) == 6 and "e" not in tok.lower() else "grid")
   Z, mass, exact, a0, lat = spec.eam_expected_metadata(model, s)
@@ -333,7 +333,7 @@ def run_funcfl(case, ctx, rng):
     # d(back)/dz = 2 z k / r : propagate the printed quantum of z
     tol = abs(2 * z * mp.mpf("27.2") * mp.mpf("0.529") / r) * q + mp.mpf("1e-9") * abs(want) + mp.mpf("1e-13") * phi.mag(r) + q * q * 15 / r
     ctx.count("values_compared")
-    if abs(back - want) > tol:
+    if not (abs(back - want) <= tol):
       ctx.violation("funcfl_charge", "Z(r)^2*27.2*0.529/r = %s but phi(r) = %s at i=%d r=%s" % (mp.nstr(back, 12), mp.nstr(want, 12), i, mp.nstr(r, 8)), what="funcfl_charge")
     if want != 0:
       nz = True
